@@ -5,7 +5,7 @@ from checks.common import *
 
 LEVEL = "proof"
 RULE = ("per suite: the eleven decoders x {valid encoding; every/selected lengths 0..L+64 as prefix, zero-, "
-        "random- and self-extension (incl. one more / fewer field of every size of the suite and whole multiples);  tag/leading byte values of every group-element and scalar field; "
+        "insertion / removal of a byte at every field boundary; random- and self-extension (incl. one more / fewer field of every size of the suite and whole multiples);  tag/leading byte values of every group-element and scalar field; "
         "single-byte substitutions; non-reduced / invalid field encodings}. A case is one decode call; "
         "non-trivial = the input is not the valid encoding itself; distinct = distinct (suite, type, input)")
 ASSUMPTIONS = ["ristretto255 canonical-encoding law (RFC 9496) is a hypothesis of the generic theorem, exercised by the battery",
@@ -50,6 +50,14 @@ def decoders(ctx, thorough=False, nsub=40):
                 dec(ty, v + bytes(l - n), "zero extension to %d" % l, must_fail=True)
                 dec(ty, v + ctx.tape(l - n), "random extension to %d" % l, must_fail=True)
                 dec(ty, (v + v)[:l], "self extension to %d" % l, must_fail=True)
+        # a byte inserted / removed at every field boundary (length changes by one somewhere in the middle)
+        bounds = sorted({0, n} | {off for _, off, _ in fl[ty]} | {off + ln for _, off, ln in fl[ty]}
+                        | {b_ for b_ in (n - L.Nh, n - L.Nh - NN, n - 2 * L.Nh, L.Npk, L.Npk + L.Nh, L.Noe, L.Noe + NN, L.Nok, L.Nh, 2 * L.Nh) if 0 < b_ < n})
+        for b_ in bounds:
+            for x in ((0, 1, 2, 3, 0xff) if not thorough else (0, 1, 2, 3, 4, 5, 0x7f, 0x80, 0xff)):
+                dec(ty, v[:b_] + bytes([x]) + v[b_:], "byte %02x inserted at %d" % (x, b_), must_fail=True)
+            if b_ < n:
+                dec(ty, v[:b_] + v[b_ + 1:], "byte removed at %d" % b_, must_fail=True)
         # leading byte of every element / scalar field
         for kind, off, ln in fl[ty]:
             vals = range(256) if thorough else sorted(set(list(range(8)) + [0x80, 0xff] + [rnd.randrange(256) for _ in range(6)]))
